@@ -73,3 +73,42 @@ def family_c18(prop, fail, unit_res, repo, verif, build):
 
 
 FAMILIES["C18"] = family_c18
+
+
+def _core_replay(binname, args_fn, repo, verif, build, timeout=1500):
+    """Build replay/core against the tree under test (walrus-rust by path) and run one of its binaries."""
+    d = os.path.join(build, "replay-core")
+    os.makedirs(d, exist_ok=True)
+    if os.path.exists(os.path.join(d, "src")):
+        shutil.rmtree(os.path.join(d, "src"))
+    shutil.copytree(os.path.join(verif, "replay", "core", "src"), os.path.join(d, "src"))
+    open(os.path.join(d, "Cargo.toml"), "w").write(open(os.path.join(verif, "replay", "core", "Cargo.toml")).read().replace("@REPO@", repo))
+    if os.path.exists(os.path.join(repo, "Cargo.lock")):
+        shutil.copy(os.path.join(repo, "Cargo.lock"), os.path.join(d, "Cargo.lock"))
+    env = dict(os.environ, CARGO_NET_OFFLINE="true", CARGO_TARGET_DIR=os.path.join(build, "replay-core-target"), WALRUS_QUIET="1")
+    b = subprocess.run(["cargo", "build", "--offline", "--release", "-q", "--bin", binname], cwd=d, env=env, capture_output=True, text=True, timeout=timeout)
+    if b.returncode != 0:
+        return dict(counterexample=None, counterexample_search="replay/core did not build against the tree under test: %s" % b.stderr[-800:])
+    scratch = os.path.join(build, "replay-scratch")
+    shutil.rmtree(scratch, ignore_errors=True)
+    os.makedirs(scratch, exist_ok=True)
+    exe = os.path.join(build, "replay-core-target", "release", binname)
+    try:
+        p = subprocess.run([exe] + args_fn(scratch), env=env, capture_output=True, text=True, timeout=timeout)
+    finally:
+        pass
+    last = [l for l in p.stdout.splitlines() if l.startswith("{")]
+    shutil.rmtree(scratch, ignore_errors=True)
+    if not last:
+        return dict(counterexample=None, counterexample_search="replay/core %s gave no verdict (rc=%d): %s" % (binname, p.returncode, (p.stdout + p.stderr)[-600:]))
+    found = [json.loads(l) for l in last if json.loads(l).get("found")]
+    if found:
+        return dict(counterexample=found[0], counterexample_search="scenario family replay/core/%s run natively against the real engine" % binname)
+    return dict(counterexample=None, counterexample_search="scenario family replay/core/%s: %s cases, none failed" % (binname, json.loads(last[-1]).get("tried")))
+
+
+def family_c14(prop, fail, unit_res, repo, verif, build):
+    return _core_replay("c14_family", lambda scratch: [scratch], repo, verif, build)
+
+
+FAMILIES["C14"] = family_c14
